@@ -21,7 +21,7 @@ RULE = (
 )
 ASSUMPTIONS = [
     "source translation and re-centring are checked with halo = 0 (whole periodic domain observed); tower translation and point reflection also with halos, on the part of the window where both cells are visible",
-    "measurement points between grid nodes are not asserted here (C02 asserts reciprocity for them against the forward run re-centred on the tower, C11 their registration at the surface level)",
+    "footprints for measurement points between grid nodes are not asserted here (C02 asserts reciprocity for them against the forward run re-centred on the tower, C11 their registration at the surface level); dispersion re-centring on such a point is asserted through the Fourier shift of the components strictly inside the band",
     "shooting growth bounded by exp(13.8) by construction",
 ]
 TOLERANCES = {"all": "(1e-12 + 4096*eps*G) * max|field|"}
@@ -120,6 +120,25 @@ def check_case(case):
         fcc = sut.as3d(fc)[:, ny // 2, nx // 2]
         if not tol.maxabs(fcc - sut.as3d(f0)[:, jm, im]) <= rel * max(tol.maxabs(f0), fs0):
             out.bad("value at the domain centre of the re-centred run is not the field value at the measurement point")
+
+    # 4b. re-centring on a point BETWEEN grid nodes: on the bare periodic domain the shifted field is the un-shifted one
+    #     with every Fourier component turned by exp(i k.(point - centre)) - asserted for the components strictly inside
+    #     the retained band (the unpaired Nyquist ones lose their imaginary part on the way back)
+    mpo = ((im + 0.3) * dx, (jm + 0.6) * dy)
+    _, co, fo = sut.S(q0, z, prof, dom, lv, meas_pt=mpo, srf_bg_conc=case["bg"], **kw)
+    mm = kw["modes"] if kw["modes"] is not None else (512, 512)
+    kxi, kyi = np.fft.fftfreq(nx, 1.0 / nx), np.fft.fftfreq(ny, 1.0 / ny)
+    band = (np.abs(kyi) < min(mm[1], ny) / 2.0)[:, None] & (np.abs(kxi) < min(mm[0], nx) / 2.0)[None, :]
+    KXo, KYo = np.meshgrid(2 * np.pi * kxi / dom[0], 2 * np.pi * kyi / dom[1])
+    ph = np.exp(1j * (KXo * (mpo[0] - dom[0] / 2) + KYo * (mpo[1] - dom[1] / 2)))
+    for name, a, b in (("conc", sut.as3d(co), sut.as3d(c0)), ("flux", sut.as3d(fo), sut.as3d(f0))):
+        A = np.fft.fft2(a, axes=(1, 2)) * band
+        B = np.fft.fft2(b, axes=(1, 2)) * ph * band
+        scale = max(tol.maxabs(np.fft.fft2(b, axes=(1, 2))), (cs0 if name == "conc" else fs0) * nx * ny)
+        if not tol.maxabs(A - B) <= rel * scale:
+            out.bad(f"re-centring on the off-node point {mpo}: in-band {name} spectrum differs from the phase-shifted spectrum of the "
+                    f"un-shifted run by {tol.maxabs(A - B):.3e} (> {rel * scale:.3e}; grid {nx}x{ny}, modes {kw['modes']})")
+    out.label("recentre-off-node-checked")
 
     # 5. with a halo the returned window is a crop of the padded periodic domain: moving the tower by whole
     #    cells moves the footprint by the same cells wherever both cells lie inside the window, and the
